@@ -14,6 +14,15 @@ def run_fsearch(ctx):
     return fams
 
 
+def run_fleaf(ctx):
+    """Engine C, F-LEAF: _bucket_set against the whole-view contract (cvc/fleaf.py); integer-keyed units."""
+    fams = ["II", "LF", "IO"] if ctx.tier == "quick" else FSEARCH_ALL
+    res = ctx.cvc(fams, ["F-LEAF"], functions=["_bucket_set"])
+    from lib import replay
+    replay.replay_fleaf(ctx, res)
+    return fams
+
+
 def run_funlink(ctx):
     """Engine C, F-UNLINK: the first-bucket protocol of deletions in _BTree_set (cvc/funlink.py)."""
     fams = ["II", "OO"] if ctx.tier == "quick" else ["II", "OO", "LF", "QQ", "fs"]
